@@ -13,15 +13,49 @@ from pathlib import Path
 ROOT = Path(__file__).resolve().parent.parent
 
 
+def run_in_worktree(a, d, meta, props):
+    import os
+    wt, bd, out = "/tmp/seed_wt", "/tmp/seed_build", "/tmp/seed_out"
+    head = subprocess.run(["git", "-C", "/repo", "rev-parse", "HEAD"], capture_output=True, text=True).stdout.strip()
+    if not Path(wt).exists():
+        subprocess.run(["git", "-C", "/repo", "worktree", "add", "--detach", wt, head], capture_output=True)
+    else:
+        subprocess.run("git -C %s checkout -- . && git -C %s checkout --detach %s" % (wt, wt, head), shell=True, capture_output=True)
+    r = subprocess.run(["git", "-C", wt, "apply", str(d / "patch.diff")])
+    if r.returncode != 0:
+        print("patch does not apply")
+        sys.exit(2)
+    env = dict(os.environ, VERIF_REPO=wt, VERIF_BUILD_ROOT=bd, VERIF_OUT_ROOT=out)
+    results = {}
+    try:
+        for p in props:
+            r = subprocess.run([sys.executable, str(ROOT / "check.py"), p, "--tier", a.tier], cwd=str(ROOT), capture_output=True, text=True, env=env)
+            viol = [l for l in r.stdout.splitlines() if l.startswith("VIOLATION")]
+            results[p] = dict(rc=r.returncode, violations=viol)
+            print(p, "rc=%d" % r.returncode, *viol, sep="\n  ")
+            if not viol and r.returncode:
+                print(r.stdout[-1500:])
+    finally:
+        subprocess.run(["git", "-C", wt, "checkout", "--", "."])
+    caught = any(v["violations"] for v in results.values())
+    print("CAUGHT" if caught else "MISSED", a.name)
+    (d / "last_run.json").write_text(json.dumps(results, indent=1))
+    sys.exit(0 if caught else 1)
+
+
 def main():
     ap = argparse.ArgumentParser()
     ap.add_argument("name")
     ap.add_argument("--tier", default="quick")
     ap.add_argument("--props", default=None)
+    ap.add_argument("--worktree", action="store_true",
+                    help="do not touch /repo: apply the change in a scratch worktree of /repo HEAD (/tmp/seed_wt) and point the check at it")
     a = ap.parse_args()
     d = ROOT / "seeded" / a.name
     meta = json.loads((d / "meta.json").read_text())
     props = a.props.split(",") if a.props else [meta["property"]]
+    if a.worktree:
+        return run_in_worktree(a, d, meta, props)
     st = subprocess.run(["git", "-C", "/repo", "status", "--porcelain", "--untracked-files=no"], capture_output=True, text=True)
     if st.stdout.strip():
         print("refusing: /repo has uncommitted changes to tracked files:\n" + st.stdout)
